@@ -19,6 +19,9 @@ const TOPICS: [&str; 4] = ["a", "b", "ab", ""];
 enum Op {
     Sub(usize),
     Unsub(usize),
+    /// the i-th peer's connection ends (not yet noticed by the socket) and the same
+    /// publisher joins again under the identity it announced before
+    Rejoin(usize),
     /// join; `stall`: Some(j) = the joining pipe accepts the library handshake + j
     /// more bytes, then withholds credit; `inner` runs while the join is stalled
     Join { stall: Option<usize>, inner: Option<Box<Op>> },
@@ -31,6 +34,7 @@ fn op_json(o: &Op) -> Value {
         Op::Unsub(t) => json!({"unsub": TOPICS[*t]}),
         Op::Join { stall, inner } => json!({"join": {"stall": stall, "inner": inner.as_ref().map(|i| op_json(i))}}),
         Op::Fail(i) => json!({"fail": i}),
+        Op::Rejoin(i) => json!({"rejoin": i}),
     }
 }
 
@@ -44,6 +48,9 @@ fn op_from(v: &Value) -> Option<Op> {
     }
     if let Some(x) = v.get("fail") {
         return Some(Op::Fail(x.as_u64()? as usize));
+    }
+    if let Some(x) = v.get("rejoin") {
+        return Some(Op::Rejoin(x.as_u64()? as usize));
     }
     if let Some(j) = v.get("join") {
         return Some(Op::Join {
@@ -213,6 +220,27 @@ async fn run(ctx: &mut Ctx, ops: &[Op], case: &Value) {
                 }
                 what = "after-peer-failure";
             }
+            Op::Rejoin(i) => {
+                let Some(idx) = peers.iter().enumerate().filter(|(_, p)| !p.failed).map(|(k, _)| k).nth(*i % peers.len().max(1)) else {
+                    continue;
+                };
+                peers[idx].conn.close_full(EndKind::Eof);
+                peers[idx].failed = true;
+                let (conn, r, w) = Conn::new();
+                conn.feed(&rc::handshake("PUB", Some(format!("pub{idx}").as_bytes())));
+                match sim::complete(attach_future(sock.backend(), r, w)).await {
+                    Ok(Ok(_)) => {
+                        let hs_len = library_handshake_len(&conn.tap()).unwrap_or(0);
+                        peers.push(PeerC { conn, hs_len, failed: false });
+                        ctx.count("rejoins_under_the_same_identity");
+                    }
+                    other => {
+                        ctx.violation_with("C13/join-failed", format!("a publisher re-joining under its identity: {other:?}"), case.clone());
+                        return;
+                    }
+                }
+                what = "after-rejoin";
+            }
             Op::Join { stall, inner } => {
                 let (conn, r, w) = Conn::new();
                 conn.feed(&rc::handshake("PUB", Some(format!("pub{}", peers.len()).as_bytes())));
@@ -307,7 +335,13 @@ fn gen_random(r: &mut Rng, len: usize) -> Vec<Op> {
         let op = match r.below(10) {
             0..=3 => Op::Sub(r.below(4)),
             4..=5 => Op::Unsub(r.below(4)),
-            6 => Op::Join { stall: None, inner: None },
+            6 => {
+                if r.chance(1, 3) && npeers >= 1 {
+                    Op::Rejoin(r.below(npeers))
+                } else {
+                    Op::Join { stall: None, inner: None }
+                }
+            }
             7 | 8 => Op::Join {
                 stall: Some(r.below(14)),
                 inner: Some(Box::new(if r.chance(2, 3) { Op::Sub(r.below(4)) } else { Op::Unsub(r.below(4)) })),
@@ -321,7 +355,7 @@ fn gen_random(r: &mut Rng, len: usize) -> Vec<Op> {
                 }
             }
         };
-        if matches!(op, Op::Join { .. }) {
+        if matches!(op, Op::Join { .. } | Op::Rejoin(_)) {
             npeers += 1;
         }
         ops.push(op);
@@ -422,6 +456,7 @@ impl Prop for C13 {
             ("repeated_subscribes", 500),
             ("unsubscribes_of_absent_topic", 200),
             ("failing_peers", 50),
+            ("rejoins_under_the_same_identity", 100),
         ]
     }
 }
